@@ -4444,9 +4444,21 @@ class NetCDFRead(IORead):
                 field_ncvar, grid_mapping
             )
 
-            cf_compliant = self._check_grid_mapping(
-                field_ncvar, grid_mapping, parsed_grid_mapping
-            )
+            if parsed_grid_mapping:
+                # Check each grid mapping on its own, so that a
+                # non-compliant one does not prevent the others from
+                # being created
+                parsed_grid_mapping = [
+                    x
+                    for x in parsed_grid_mapping
+                    if self._check_grid_mapping(field_ncvar, grid_mapping, [x])
+                ]
+                cf_compliant = True
+            else:
+                cf_compliant = self._check_grid_mapping(
+                    field_ncvar, grid_mapping, parsed_grid_mapping
+                )
+
             if not cf_compliant:
                 logger.warning(
                     f"        Bad grid_mapping: {grid_mapping!r}"
@@ -4574,9 +4586,21 @@ class NetCDFRead(IORead):
         if measures is not None:
             parsed_cell_measures = self._parse_x(field_ncvar, measures)
 
-            cf_compliant = self._check_cell_measures(
-                field_ncvar, measures, parsed_cell_measures
-            )
+            if parsed_cell_measures:
+                # Check each cell measure on its own, so that a
+                # non-compliant one does not prevent the others from
+                # being created
+                parsed_cell_measures = [
+                    x
+                    for x in parsed_cell_measures
+                    if self._check_cell_measures(field_ncvar, measures, [x])
+                ]
+                cf_compliant = True
+            else:
+                cf_compliant = self._check_cell_measures(
+                    field_ncvar, measures, parsed_cell_measures
+                )
+
             if cf_compliant:
                 for x in parsed_cell_measures:
                     measure, ncvars = list(x.items())[0]
@@ -4664,11 +4688,25 @@ class NetCDFRead(IORead):
                 parsed_ancillary_variables = self._split_string_by_white_space(
                     field_ncvar, ancillary_variables, variables=True
                 )
-                cf_compliant = self._check_ancillary_variables(
-                    field_ncvar,
-                    ancillary_variables,
-                    parsed_ancillary_variables,
-                )
+                if parsed_ancillary_variables:
+                    # Check each ancillary variable on its own, so
+                    # that a non-compliant one does not prevent the
+                    # others from being created
+                    parsed_ancillary_variables = [
+                        ncvar
+                        for ncvar in parsed_ancillary_variables
+                        if self._check_ancillary_variables(
+                            field_ncvar, ancillary_variables, [ncvar]
+                        )
+                    ]
+                    cf_compliant = True
+                else:
+                    cf_compliant = self._check_ancillary_variables(
+                        field_ncvar,
+                        ancillary_variables,
+                        parsed_ancillary_variables,
+                    )
+
                 if not cf_compliant:
                     pass
                 else:
